@@ -525,6 +525,19 @@ func zmPairs(p *core.Program, pkg *packages.Package, fd *ast.FuncDecl) (map[[2]i
 					}
 				}
 			}
+			// ... or helper(<constant slot>, flat, base+<constant>): the helper indexes the array itself
+			if c, isC := m.(*ast.CallExpr); isC && len(c.Args) == 3 {
+				if d, okD := eng.ConstInt64(eng.ConstOf(pkg.TypesInfo, c.Args[0])); okD {
+					if tv, okT := pkg.TypesInfo.Types[c.Args[1]]; okT && isFloatSlice(tv.Type) && boundsSide(pkg, fd, c.Args[1]) == "" {
+						if be, okB := c.Args[2].(*ast.BinaryExpr); okB && be.Op == token.ADD {
+							if sv, okS := eng.ConstInt64(eng.ConstOf(pkg.TypesInfo, be.Y)); okS {
+								pairs[[2]int64{d, sv}] += 2
+								found = true
+							}
+						}
+					}
+				}
+			}
 			x, ok := m.(*ast.AssignStmt)
 			if !ok || len(x.Lhs) != 1 || len(x.Rhs) != 1 {
 				return true
